@@ -143,8 +143,12 @@ func (h *histProp) Gen(kind string, idx int64, seed int64, tier string) core.Cas
 		}
 		pc = GenPCase(r, typ, o, h.weights, 120, 60000+r.Intn(200000))
 		pc.Cfg.BufferSize = []int{1<<16 - 9, 1<<16 - 8, 1<<16 - 7, 1<<16 - 1, 1 << 16, 1<<16 + 1, 1<<16 + 7, 40000, 100000}[r.Intn(9)]
+		if r.Intn(3) == 0 {
+			// every size around the first capacity step of ReadFrom
+			pc.Cfg.BufferSize = 1<<16 + r.Intn(19) - 9
+		}
 		if o.MaxBuf < pc.Cfg.BufferSize {
-			pc.Cfg.BufferSize = 1<<16 + r.Intn(3) - 1
+			pc.Cfg.BufferSize = 1<<16 + r.Intn(17) - 8
 		}
 		if pc.Cfg.ShrinkSize >= pc.Cfg.BufferSize {
 			pc.Cfg.ShrinkSize = pc.Cfg.BufferSize / 2
@@ -159,6 +163,12 @@ func (h *histProp) Gen(kind string, idx int64, seed int64, tier string) core.Cas
 		for i := range pc.Ops {
 			if (pc.Ops[i].K == "write" || pc.Ops[i].K == "readfrom") && pc.Ops[i].A == 0 {
 				pc.Ops[i].B *= 1 + r.Intn(200)
+				if r.Intn(5) == 0 {
+					pc.Ops[i].B = []int{32768, 65536, 65543}[r.Intn(3)] + r.Intn(17) - 8
+				}
+			}
+			if pc.Ops[i].K == "wparse" && pc.Ops[i].C&1 == 0 {
+				pc.Ops[i].D *= 1 + r.Intn(200)
 			}
 		}
 	case "default":
